@@ -12,7 +12,7 @@ demo() { # $1 = label
     go test -vet=off -count=1 -run "^($names)\$" ./src >/tmp/seedeval.$$.log 2>&1; rc=$?
     rm -f src/zz_demo_test.go
   else
-    go build -o "$W/anonymongo.bin" ./src && sh "$S/demo.sh" "$W/anonymongo.bin" >/tmp/seedeval.$$.log 2>&1; rc=$?
+    go build -o "$W/anonymongo.bin" ./src && bash "$S/demo.sh" "$W/anonymongo.bin" >/tmp/seedeval.$$.log 2>&1; rc=$?
     rm -f "$W/anonymongo.bin"
   fi
   echo "demo[$1] rc=$rc"; [ -n "$SEED_VERBOSE" ] && tail -15 /tmp/seedeval.$$.log; rm -f /tmp/seedeval.$$.log
